@@ -234,6 +234,38 @@ CLAIMS["C15"] = dict(
     design_ref="DESIGN.md section 4 C15, section 9",
     note=TRUSTED + " Assumed contracts: errors.Is, strings.EqualFold as ASCII folding, httputil.DumpRequest/bytes.Cut/iterutil.SplitBytesSeq as pure, running the iterator only calls the yield function, slog Logger.Error records one entry, Context/ResponseWriter observers.")
 
+# ---- third session: additions to the claim texts (the earlier texts stay as they are)
+CLAIMS["C01"]["text"] += (" Added: at every walk head a recording walk has exactly as many recorded parameters as its parameter counter (so a backtrack that does not truncate, or a "
+    "reset hoisted out of the retry loop, fails a named invariant), and a recording lookup starts from an empty list (proved at ServeHTTP, Lookup, Txn.Lookup after their resets and at "
+    "both sub-walk sites); the first trailing-slash candidate found is kept (the candidate is assigned only while there is none, the flag is raised once, tsr <==> candidate != nil); "
+    "every sub-context taken from the pool is put back on every path; ServeHTTP's dispatch postconditions (which route, tsr flag, scope, no stale route/parameters in the special handlers) "
+    "are checked under C01 as well. Node well-formedness no longer demands 'childless nodes are leaves' of the per-method root nodes (the earlier form was unsatisfiable on a fresh router); "
+    "newNode is verified to label every edge with the first byte of its child's key.")
+CLAIMS["C02"]["text"] += (" Added: classify's internal-error panic is unreachable (its precondition - counters within the path and the key - is ensured by copyOnWriteSearch and proved at every "
+    "call in insert/update/remove); newNode, newNodeFromRef, updateEdge, updateRoot, removeRoot, recreateParentEdge are verified for their own safety under stated preconditions "
+    "(children exist and have non-empty keys; the node has an edge for the new child's first byte; the node left out is a child); a panic inside a Router write helper leaves the lock released and nothing published.")
+CLAIMS["C02"]["note"] += " Still partial (safety assumed): insert, update, remove, truncate, copyOnWriteSearch - see DESIGN.md section 9.8 for why."
+CLAIMS["C03"]["text"] += (" Added: the frame condition of the children arrays is also obliged right after every call that writes them (cut points), so a write into a shared array fails at the call that makes it.")
+CLAIMS["C04"]["text"] += (" Added: exceptional exits - a panic raised inside Router.Handle/HandleRoute/Update/UpdateRoute/Delete (route options and middleware constructors run under the writer lock), "
+    "inside the function handed to Updates or to View: the deferred Abort/closure runs, the lock is released, nothing is published (obligations on-panic@call:...released).")
+CLAIMS["C05"]["text"] += (" Added: commit, txn, snapshot and clone of the tree transaction are checked under C05 too (a commit that returns the old tree fails `fresh(result)`); the on-panic clauses of C04.")
+CLAIMS["C06"]["text"] += (" Added: the iterator methods Iter.Methods/Routes/Reverse/Prefix/All (whose loop bodies run between yields) reach no lock, TryLock included.")
+CLAIMS["C08"]["text"] += (" Added: among several trailing-slash candidates the first one found is kept (assertions before every assignment to the candidate node and to the flag in both walks) - "
+    "this decides a four-route case the bounded stand-in is too small for; copyWithResize copies the entry values of the parameters into the tsr buffer.")
+CLAIMS["C09"]["text"] += (" Added: the path sub-walk of a hostname route starts only when the whole host has been consumed by whole node keys (assert@call:lookupByPath#1.whole-host): "
+    "a route for h.com is never entered for h.com.evil.org or h.comx, for every tree and host.")
+CLAIMS["C10"]["text"] += (" Added: parseWildcard's contract (one entry per '{', ends inside the fragment) is checked under C10 as well: extraction must agree with what parseRoute accepts.")
+CLAIMS["C12"]["text"] += (" Added: pool balance - ServeHTTP puts its context back on every path, Lookup and CloneWith hand out exactly one live context, Close returns it; copyWithResize "
+    "resizes the destination to the source's length and copies every entry (a recycled buffer that keeps a longer tail fails `len(*dst) == len(*src)`); CloneWith, copyWithResize are verified for safety (no longer partial).")
+CLAIMS["C15"]["text"] += (" Added: the single-operation helpers Handle/HandleRoute/Update/UpdateRoute/Delete release the writer lock and publish nothing when a route option or middleware constructor panics "
+    "(exceptional postcondition, checked with the deferred Abort run on the panic path); Updates/View likewise, including that the abort-and-re-raise closure is registered before fn runs.")
+CLAIMS["C16"]["text"] += (" Added (deductive): every context or sub-context taken from the tree's pool is returned on every path of the walks, ServeHTTP, Route and Reverse (ghost counter on sync.Pool.Get/Put); "
+    "copyWithResize never shrinks the capacity of the recycled buffer and allocates nothing when the source fits. Measured allocations remain the bounded stand-in.")
+CLAIMS["C18"]["text"] += (" Added: isIPContainedInRanges is exactly 'some entry of the table contains the address' (loop invariant); Context.ClientIP returns the answer of exactly one resolver for this call "
+    "(nothing remembered between calls on a pooled context).")
+CLAIMS["C19"]["text"] += (" Added: ServeHTTP's dispatch postconditions (no route in the redirect and the other special handlers, whatever the recycled context carried) are checked under C19.")
+CLAIMS["C20"]["text"] += (" Added: Context.ClientIP (which resolver answers) and ServeHTTP's 'special handlers see no route' postconditions are checked under C20: the client-IP cell of the redirect handler cannot pick up a previous request's route.")
+
 NOT_APPLICABLE = {
     "C01": "only edge search and method index are under contract so far; matcher mechanisms not yet (DESIGN.md section 4 C01)",
     "C02": "not yet under contract in this revision (counters/guards planned, DESIGN.md §4 C02)",
